@@ -234,6 +234,22 @@ func c18String(c *Ctx, s string) {
 	}
 }
 
+// c18Restless is a Stringer which never answers the same twice: the base text followed by a growing tail of digits,
+// every third answer with one more line.
+type c18Restless struct {
+	base string
+	n    int
+}
+
+func (r *c18Restless) String() string {
+	r.n++
+	s := r.base + strings.Repeat("9", r.n)
+	if r.n%3 == 0 {
+		s += "\nanother line " + strings.Repeat("x", r.n)
+	}
+	return s
+}
+
 func c18Cells(c *Ctx, s string) {
 	inner := tabular.NewCell(s)
 	innerP := tabular.NewCell(s)
@@ -247,6 +263,9 @@ func c18Cells(c *Ctx, s string) {
 		{"error", gen.PE_0{E: s}},
 		{"nested Cell", inner},
 		{"*Cell", &innerP},
+		// an item whose text method gives another answer every time it is asked (a live counter, a clock): whatever
+		// text the cell read, its lines, height and width belong to THAT text
+		{"Stringer whose answer changes with every call", &c18Restless{base: s}},
 	}
 	for _, k := range kinds {
 		item := k.item
